@@ -77,6 +77,8 @@ def _vol_for(M):
         st.floats(0, 5000, allow_nan=False).map(lambda x: round(x, 2)),
         k.map(lambda i: round(i * M, 2)),
         k.map(lambda i: i * M),
+        k.map(lambda i: math.nextafter(i * M, math.inf)),
+        k.map(lambda i: math.nextafter(i * M, 0.0)),
         k.map(lambda i: i * M + 0.004),
         st.sampled_from([0.001, 0.004, 0.0049, 0.005, 0.006]),
         k.map(lambda i: round(i * M + 0.01, 2)),
@@ -152,7 +154,7 @@ def _check_partition(obs, v, M):
         if not (s > 0):
             obs.bad("C06/nonpositive-step", f"partition_volume({v!r}, max_volume={M!r}) = {steps[:8]} contains a step <= 0")
             break
-        if Fraction(s) > Fraction(M) * (1 + SLACK):
+        if Fraction(s) > Fraction(M):  # exact: a step one ulp above the limit is refused by the per-step guard
             obs.bad("C06/step-above-max", f"partition_volume({v!r}, max_volume={M!r}) = {steps[:8]} contains a step > max_volume")
             break
     if abs(math.fsum(steps) - v) > 1e-9 * max(v, 1e-300):
